@@ -67,9 +67,10 @@ class Sym(Abstract):
 
 
 class _Lambda:
-    def __init__(self, node: ast.Lambda, env: Dict[str, Any]):
+    def __init__(self, node: ast.Lambda, env: Dict[str, Any], home: Any = None):
         self.node = node
         self.env = env
+        self.home = home  # (module, class) in which the lambda is written: its free names mean what they mean there
 
     def __call__(self, *args: Any) -> Any:
         return self.call(_CURRENT[-1], list(args))
@@ -81,9 +82,21 @@ class _Lambda:
             raise Unfoldable("lambda arity")
         env = dict(self.env)
         env.update(zip(params, args))
-        sub = Folder(env, f.repo, f.mod, f.cls, f.hook)
+        mod_, cls_ = self.home if self.home is not None else (f.mod, f.cls)
+        sub = Folder(env, f.repo, mod_, cls_, f.hook)
         sub.depth = f.depth
         return sub.fold(self.node.body)
+
+
+class _Eager(list):
+    """the elements of a one-shot producer (an itertools object), computed eagerly: a list for whoever walks it once, and a
+    single shared position for whoever pulls elements out with next() - `iter(p) is p` for these in Python"""
+
+    def cursor(self) -> Any:
+        c = self.__dict__.get("_cursor")
+        if c is None:
+            c = self.__dict__["_cursor"] = list.__iter__(self)
+        return c
 
 
 class _Repeat(Abstract):
@@ -160,9 +173,10 @@ def call_value(folder: "Folder", f: Any, args: list, kwargs: Optional[dict] = No
 class _LocalFn:
     """a function defined inside the evaluated function: called by evaluating its body (closure over the defining environment)"""
 
-    def __init__(self, node: ast.FunctionDef, env: Dict[str, Any]):
+    def __init__(self, node: ast.FunctionDef, env: Dict[str, Any], home: Any = None):
         self.node = node
         self.env = env  # shared with the enclosing evaluation (late binding, as in Python)
+        self.home = home  # (module, class) in which the function is written
 
     def __call__(self, *args: Any) -> Any:
         return self.call(_CURRENT[-1], list(args))
@@ -181,7 +195,8 @@ class _LocalFn:
             if p_ not in defaults:
                 raise Unfoldable("arity of %s" % self.node.name)
             env[p_] = Folder(dict(self.env), f.repo, f.mod, f.cls, f.hook).fold(defaults[p_])
-        ev = Evaluator(env, f.repo, f.mod, f.cls, f.hook)
+        mod_, cls_ = self.home if self.home is not None else (f.mod, f.cls)
+        ev = Evaluator(env, f.repo, mod_, cls_, f.hook)
         ev.depth = f.depth + 1
         ev.outer_env = self.env  # type: ignore
         r = ev.run(body_without_docstring_(self.node))
@@ -590,7 +605,7 @@ class Folder:
         if isinstance(e, (ast.ListComp, ast.SetComp, ast.GeneratorExp, ast.DictComp)):
             return self._comprehension(e)
         if isinstance(e, ast.Lambda):
-            return _Lambda(e, dict(self.env))
+            return _Lambda(e, dict(self.env), (self.mod, self.cls))
         raise Unfoldable(unparse(e))
 
     def _iter_arg(self, a: ast.expr) -> Any:
@@ -620,7 +635,7 @@ class Folder:
         if name in ("itertools.product", "itertools.chain"):
             import itertools
 
-            return list(getattr(itertools, name.split(".")[1])(*[list(v) for v in vals]))
+            return _Eager(getattr(itertools, name.split(".")[1])(*[list(v) for v in vals]))
         if isinstance(e.func, ast.Attribute):
             recv = self.fold(e.func.value)
             m = e.func.attr
@@ -699,14 +714,15 @@ class Folder:
                 return PROCESS_STATE[id(r)][1]
             owner = self._owner_module(e)
             v_mod = Folder(self.env, self.repo, owner, None, self.hook).fold(r)
-            if isinstance(v_mod, (bytearray, list, dict, set)) and not isinstance(v_mod, Abstract):
-                # a mutable module-level object is ONE object for the life of the process: whoever changes it changes it for
-                # everyone after (the rules start every rule with a fresh process, see Ctx.attempt)
+            if not isinstance(v_mod, (int, float, str, bytes, bool, Fraction, type(None), Abstract)) or type(v_mod).__name__ in ("AObj",):
+                # a module-level object with an identity (a container, a sentinel `object()`, a compiled pattern, an instance) is
+                # ONE object for the life of the process: whoever changes it changes it for everyone after, and `x is SENTINEL`
+                # means what it says (the rules start every rule with a fresh process, see Ctx.attempt)
                 PROCESS_STATE[id(r)] = (r, v_mod)
             return v_mod
         if isinstance(r, ClassInfo):
             return r  # a class of the model, as a value (e.g. chosen by a conditional expression)
-        if isinstance(r, FuncInfo) and (r.cls is None or r.is_static or r.is_classmethod or (isinstance(e, ast.Attribute) and not (isinstance(e.value, ast.Name) and e.value.id in ("self",)))):
+        if isinstance(r, FuncInfo) and (r.cls is None or r.is_static or r.is_classmethod or isinstance(e, ast.Name) or (isinstance(e, ast.Attribute) and not (isinstance(e.value, ast.Name) and e.value.id in ("self",)))):
             # a function of the repository as a first-class value (passed to reduce / map / sorted(key=) / stored in a table)
             from .absint import FnRef
 
@@ -939,10 +955,14 @@ class Folder:
             return self.fold(args[1])
         if name == "iter" and len(args) == 1:
             v = self.fold(args[0])
+            if isinstance(v, _Eager):
+                return v.cursor()
             return iter(list(v.keys()) if isinstance(v, dict) else list(v))
         if name == "next" and len(args) in (1, 2):
             it = self.fold(args[0])
-            if isinstance(it, (list, tuple)):
+            if isinstance(it, _Eager):
+                it = it.cursor()  # a one-shot producer that was folded eagerly: `next` consumes it, as it would the real thing
+            elif isinstance(it, (list, tuple)):
                 it = iter(it)  # a lazily produced sequence that was folded eagerly
             try:
                 return next(it)
@@ -1232,7 +1252,7 @@ class Folder:
             out_ = list(_it.islice(getattr(_it, name.split(".")[1])(*vals, **kw), 200001))
             if len(out_) > 200000:
                 raise TooLarge("%s enumerates more than 200000 combinations" % unparse(e)[:60])
-            return out_
+            return _Eager(out_)
         if name in ("collections.defaultdict", "defaultdict") and len(args) == 1 and dotted(args[0]) in ("list", "set", "dict", "int"):
             import collections as _c
 
